@@ -1,6 +1,7 @@
 package props
 
 import (
+	"context"
 	"encoding/json"
 	"fmt"
 	"reflect"
@@ -333,6 +334,20 @@ var c08Pure = core.Mon(c08, "repeat-and-interleave", func(w *core.W, c *PureCase
 		w.Violation("repeat-and-interleave", "C08/tree-depends-on-callers-buffer", c, clipS(o2+" fields "+f2, 300), clipS(first+" fields "+f0, 300),
 			fmt.Sprintf("the tree parsed from a buffer the host re-used afterwards evaluates/analyses differently from the tree of the same text %q parsed from a private buffer", clipS(c.Src, 120)))
 		return
+	}
+	if !clock {
+		dep, nkeys := contextInputs(sc, c.Data, first)
+		w.Count("context_lookup_scans")
+		w.CountN("undeclared_context_keys_probed", int64(nkeys))
+		if dep != "" {
+			if addressSensitiveForSure(sc, c.Data) {
+				w.Skip("address-dependent-output")
+				return
+			}
+			w.Violation("repeat-and-interleave", "C08/depends-on-a-context-value", c, clipS(first, 300), dep,
+				fmt.Sprintf("%q reads a value out of the caller's context that is neither text nor data: equal text and equal data, another outcome", clipS(c.Src, 120)))
+			return
+		}
 	}
 	for rep := 0; rep < c.Reps; rep++ {
 		// unrelated work in between
@@ -676,4 +691,64 @@ func runC08(w *core.W) {
 			w.Sample("pair", fmt.Sprintf("%q", clipS(c.Src, 100)))
 		}
 	}
+}
+
+// spyCtx records the keys an evaluation looks up in the caller's context. A result is a function of text and data: a
+// context value the library reads behind the caller's back is a third input. The monitor does not guess - it watches
+// which string-kinded keys are asked for, then supplies values under exactly those keys and compares outcomes.
+type spyCtx struct {
+	context.Context
+	keys *[]interface{}
+}
+
+func (s spyCtx) Value(key interface{}) interface{} {
+	*s.keys = append(*s.keys, key)
+	return s.Context.Value(key)
+}
+
+// contextInputs evaluates sc over data under a recording context; for every plain or named string key other than the
+// documented runner key it re-evaluates with probe values under that key. It returns a description of the first
+// dependence found ("" if none) and the number of undeclared keys seen.
+func contextInputs(sc *formula.SourceCode, data val.V, first string) (string, int) {
+	uses := false
+	obs.Walk(sc.Expression, func(e formula.Expression) {
+		if l, ok := e.(*formula.LiteralExpression); ok && l.Token == formula.SK_CtxKeyword {
+			uses = true
+		}
+	})
+	if uses {
+		return "", 0 // the formula itself hands the context on: whatever is in it is the formula's business
+	}
+	evalUnder := func(ctx context.Context) string {
+		r := formula.NewRunner()
+		r.SetThis(shallowCopy(builtFor(data)))
+		var v interface{}
+		var err error
+		p, pv := core.Call(func() { v, err = r.Resolve(ctx, sc.Expression) })
+		return outcome(v, err, p, pv)
+	}
+	var keys []interface{}
+	base := evalUnder(spyCtx{context.Background(), &keys})
+	if base != first {
+		return "", 0 // (not comparable: reported by the repeat checks if it is a defect)
+	}
+	seen := map[string]bool{}
+	undeclared := 0
+	for _, k := range keys {
+		if k == nil || reflect.TypeOf(k).Kind() != reflect.String {
+			continue
+		}
+		ks := reflect.ValueOf(k).String()
+		if ks == "formulaRunner" || seen[ks] {
+			continue
+		}
+		seen[ks] = true
+		undeclared++
+		for _, probe := range []interface{}{time.FixedZone("P5", 5*3600), time.FixedZone("M3", -3*3600), "x", 1, true, int64(7), 2.5, time.Unix(99, 0).UTC(), map[string]interface{}{"k": 1}, []string{"a"}} {
+			if o := evalUnder(context.WithValue(context.Background(), k, probe)); o != first {
+				return fmt.Sprintf("with the context value %T(%v) under the key %T(%q): %s", probe, probe, k, ks, clipS(o, 200)), undeclared
+			}
+		}
+	}
+	return "", undeclared
 }
